@@ -387,7 +387,9 @@ impl Ntv2Spec {
                 w = 3600.0 * *rng.pick(&[174.0, 178.0, 182.0, -186.0, -200.0]);
             }
             let base_name = format!("B{}", b);
-            let base = Self::gen_subgrid(rng, &base_name, "NONE", s_lat, w, rows, cols, inc, inc);
+            // latitude and longitude increments need not be equal
+            let jl = inc * *rng.pick(&[1.0, 1.0, 2.0, 0.5]);
+            let base = Self::gen_subgrid(rng, &base_name, "NONE", s_lat, w, rows, cols, inc, jl);
             if rng.chance(0.6) {
                 // child covering interior cells [1..rows-2] x [1..cols-2], half the spacing
                 let c_rows = 2 * (rows - 3) + 1;
@@ -397,28 +399,28 @@ impl Ntv2Spec {
                 // by the NTv2 rule the shared edge belongs to the sibling for which it is
                 // the lower (southern / western) limit
                 if rng.chance(0.3) && c_cols >= 5 && c_rows >= 5 {
-                    let h = inc / 2.0;
+                    let (h, hl) = (inc / 2.0, jl / 2.0);
                     if rng.chance(0.5) {
                         let k = 1 + rng.below(c_cols - 2); // cells in the western sibling
-                        let west = Self::gen_subgrid(rng, &format!("W{}", b), &base_name, s_lat + inc, w + inc, c_rows, k + 1, h, h);
-                        let east = Self::gen_subgrid(rng, &format!("E{}", b), &base_name, s_lat + inc, w + inc + k as f64 * h, c_rows, c_cols - k, h, h);
+                        let west = Self::gen_subgrid(rng, &format!("W{}", b), &base_name, s_lat + inc, w + jl, c_rows, k + 1, h, hl);
+                        let east = Self::gen_subgrid(rng, &format!("E{}", b), &base_name, s_lat + inc, w + jl + k as f64 * hl, c_rows, c_cols - k, h, hl);
                         subgrids.push(west);
                         subgrids.push(east);
                     } else {
                         let k = 1 + rng.below(c_rows - 2); // cells in the southern sibling
-                        let south = Self::gen_subgrid(rng, &format!("S{}", b), &base_name, s_lat + inc, w + inc, k + 1, c_cols, h, h);
-                        let north = Self::gen_subgrid(rng, &format!("N{}", b), &base_name, s_lat + inc + k as f64 * h, w + inc, c_rows - k, c_cols, h, h);
+                        let south = Self::gen_subgrid(rng, &format!("S{}", b), &base_name, s_lat + inc, w + jl, k + 1, c_cols, h, hl);
+                        let north = Self::gen_subgrid(rng, &format!("N{}", b), &base_name, s_lat + inc + k as f64 * h, w + jl, c_rows - k, c_cols, h, hl);
                         subgrids.push(south);
                         subgrids.push(north);
                     }
                     subgrids.push(base);
                     continue;
                 }
-                let child = Self::gen_subgrid(rng, &child_name, &base_name, s_lat + inc, w + inc, c_rows, c_cols, inc / 2.0, inc / 2.0);
+                let child = Self::gen_subgrid(rng, &child_name, &base_name, s_lat + inc, w + jl, c_rows, c_cols, inc / 2.0, jl / 2.0);
                 if rng.chance(0.4) && c_rows >= 5 && c_cols >= 5 {
                     let g_rows = 2 * (c_rows - 3) + 1;
                     let g_cols = 2 * (c_cols - 3) + 1;
-                    let g = Self::gen_subgrid(rng, &format!("G{}", b), &child_name, s_lat + inc + inc / 2.0, w + inc + inc / 2.0, g_rows, g_cols, inc / 4.0, inc / 4.0);
+                    let g = Self::gen_subgrid(rng, &format!("G{}", b), &child_name, s_lat + inc + inc / 2.0, w + jl + jl / 2.0, g_rows, g_cols, inc / 4.0, jl / 4.0);
                     subgrids.push(g);
                 }
                 subgrids.push(child);
